@@ -119,6 +119,16 @@ pub fn gen_query(rng: &mut StdRng, profile: &str) -> J {
         q["optfrom"] = json!(from);
         q["opt"] = json!([{"var": "oe", "types": match rng.random_range(0..4) { 0 => vec!["T"], 1 => vec!["U"], _ => vec![] }, "dir": dir},
                           {"var": "ob", "labels": match rng.random_range(0..5) { 0 => vec!["A"], 1 => vec!["B"], _ => vec![] }}]);
+        // the WHERE of the optional match may mention main and optional variables
+        if rng.random_bool(0.6) {
+            let mut vs = nvars.clone();
+            vs.push("ob".to_string());
+            let mut es = evars.clone();
+            es.push("oe".to_string());
+            q["owhere"] = gen_pred(rng, &vs, &es, 1, false);
+        }
+        // a WHERE on the main match cannot be written in this GQL dialect (one WHERE, after all MATCH clauses)
+        if rng.random_bool(0.5) { q["where"] = json!({"op": "true"}); }
     }
     let prop = |rng: &mut StdRng, vars: &[String]| -> J { json!({"op": "prop", "var": vars[rng.random_range(0..vars.len())], "key": if rng.random_bool(0.6) { "k" } else { "s" }}) };
     let mode = match profile { "order" => 4, "agg" => 3, "distinct" => 2, "opt" => [0, 2, 3][rng.random_range(0..3)], _ => rng.random_range(0..10) };
@@ -186,6 +196,7 @@ fn uses(e: &J, op: &str) -> bool {
 }
 pub fn render(q: &J, lang: &str) -> Option<String> {
     if lang == "gql" && (uses(&q["where"], "isnull") || uses(&q["where"], "notnull")) { return None; }
+    if lang == "gql" && q.get("owhere").is_some_and(|w| uses(w, "isnull") || uses(w, "notnull")) { return None; }
     let mut s = String::from("MATCH ");
     for (i, p) in q["path"].as_array()?.iter().enumerate() {
         if i % 2 == 0 {
@@ -197,6 +208,11 @@ pub fn render(q: &J, lang: &str) -> Option<String> {
             s += &match p["dir"].as_str()? { "out" => format!("-{body}->"), "in" => format!("<-{body}-"), _ => format!("-{body}-") };
         }
     }
+    let has_opt = q.get("opt").is_some();
+    if has_opt && q["where"]["op"] != "true" {
+        if lang == "gql" { return None; }
+        s += &format!(" WHERE {}", r_expr(&q["where"])?);
+    }
     if let Some(opt) = q.get("opt").and_then(|o| o.as_array()) {
         let (ep, np) = (&opt[0], &opt[1]);
         let t = ep["types"].as_array()?.first().map(|t| format!(":{}", t.as_str().unwrap())).unwrap_or_default();
@@ -204,8 +220,9 @@ pub fn render(q: &J, lang: &str) -> Option<String> {
         let labs: String = np["labels"].as_array()?.iter().map(|l| format!(":{}", l.as_str().unwrap())).collect();
         let arrow = match ep["dir"].as_str()? { "out" => format!("-{body}->"), "in" => format!("<-{body}-"), _ => format!("-{body}-") };
         s += &format!(" OPTIONAL MATCH ({}){}({}{})", q["optfrom"].as_str()?, arrow, np["var"].as_str()?, labs);
+        if let Some(ow) = q.get("owhere") { s += &format!(" WHERE {}", r_expr(ow)?); }
     }
-    if q["where"]["op"] != "true" { s += &format!(" WHERE {}", r_expr(&q["where"])?); }
+    if !has_opt && q["where"]["op"] != "true" { s += &format!(" WHERE {}", r_expr(&q["where"])?); }
     s += if q["distinct"] == true { " RETURN DISTINCT " } else { " RETURN " };
     let items: Option<Vec<String>> = q["ret"].as_array()?.iter().map(|it| {
         let e = r_expr(&it["e"])?;
